@@ -57,8 +57,9 @@ type TypeDesc struct {
 }
 
 type Result struct {
-	Sites []Site
-	Types []TypeDesc
+	Sites    []Site
+	Types    []TypeDesc
+	Decoders []string // types with a DecodeRLP method (not part of Gen.v)
 }
 
 type loaded struct {
@@ -536,6 +537,9 @@ func (x *extractor) scanPkg(ld *loaded) {
 		if tn, ok := sc.Lookup(n).(*types.TypeName); ok && !tn.IsAlias() {
 			if nt, ok := tn.Type().(*types.Named); ok && !types.IsInterface(nt) && isCustom(nt) {
 				x.addType(pkgName(ld.pkg)+"."+n, nt, "has its own EncodeRLP/DecodeRLP")
+				if hasMethod(nt, "DecodeRLP") {
+					x.res.Decoders = append(x.res.Decoders, pkgName(ld.pkg)+"."+n)
+				}
 			}
 		}
 	}
